@@ -379,9 +379,8 @@ func (c ProtoMapCodec) Append(data []byte, ptr unsafe.Pointer, tag []byte) []byt
 }
 
 func (c ProtoMapCodec) Read(data []byte, ptr unsafe.Pointer, wt plenccore.WireType) (n int, err error) {
-	if len(data) == 0 {
-		return 0, nil
-	}
+	// Note empty data is a valid entry: both the key and the value were
+	// omitted because they are zero.
 
 	// ptr is a pointer to a map pointer
 	if *(*unsafe.Pointer)(ptr) == nil {
